@@ -445,7 +445,21 @@ impl<S: magma::Sbox> SboxOf for magma::Gost89<S> {
     const SNAME: &'static str = S::NAME;
 }
 fn ref_gost_of<T: SboxOf>(k: &[u8]) -> Option<Box<dyn RefCipher>> {
-    refs::gost89(k, &T::TABLE)
+    // bundled sets: the reference is keyed with the frozen published table, not with whatever
+    // the crate currently exports (a typo in a bundled table must not carry over to the oracle)
+    let table = crate::bundled_sboxes::frozen(T::SNAME).unwrap_or(&T::TABLE);
+    refs::gost89(k, table)
+}
+/// (type alias, S::NAME, the table the crate currently exports) for the six bundled sets
+pub fn bundled_tables() -> Vec<(&'static str, &'static str, [[u8; 16]; 8])> {
+    vec![
+        ("magma::Magma", <magma::Magma as SboxOf>::SNAME, <magma::Magma as SboxOf>::TABLE),
+        ("magma::Gost89Test", <magma::Gost89Test as SboxOf>::SNAME, <magma::Gost89Test as SboxOf>::TABLE),
+        ("magma::Gost89CryptoProA", <magma::Gost89CryptoProA as SboxOf>::SNAME, <magma::Gost89CryptoProA as SboxOf>::TABLE),
+        ("magma::Gost89CryptoProB", <magma::Gost89CryptoProB as SboxOf>::SNAME, <magma::Gost89CryptoProB as SboxOf>::TABLE),
+        ("magma::Gost89CryptoProC", <magma::Gost89CryptoProC as SboxOf>::SNAME, <magma::Gost89CryptoProC as SboxOf>::TABLE),
+        ("magma::Gost89CryptoProD", <magma::Gost89CryptoProD as SboxOf>::SNAME, <magma::Gost89CryptoProD as SboxOf>::TABLE),
+    ]
 }
 
 // ------------------------------------------------------------------------------------------
@@ -673,6 +687,9 @@ pub fn entries() -> Vec<Entry> {
         (u64, U12, U8), (u64, U16, U16), (u64, U20, U24), (u64, U12, U32), (u64, U20, U32),
         (u128, U12, U8), (u128, U16, U16), (u128, U20, U24), (u128, U12, U32), (u128, U20, U64),
         (u32, U12, U64), (u32, U12, U128), (u64, U12, U128), (u16, U12, U100), (u8, U12, U200),
+        // large round counts; more key words than table words with a partial last word (c > t, b % u != 0)
+        (u32, U200, U16), (u8, U128, U8), (u64, U127, U9), (u16, U254, U2), (u128, U100, U1),
+        (u16, U1, U9), (u32, U0, U13), (u64, U1, U41), (u128, U0, U255), (u16, U0, U255), (u32, U2, U31), (u64, U0, U23),
     );
     v
 }
@@ -733,7 +750,11 @@ fn t_new_fixed<T: KeyInit + BlockCipherEncrypt + BlockCipherDecrypt + Send + Syn
 }
 fn t_debug<T: KeyInit + core::fmt::Debug>(k: &[u8]) -> Option<String> {
     let t = T::new_from_slice(k).ok()?;
-    Some(format!("{:?}", t))
+    // a panic while formatting is an observation about Debug, not about construction
+    match catch_unwind(AssertUnwindSafe(|| format!("{:?}", t))) {
+        Ok(s) => Some(s),
+        Err(e) => Some(format!("<<Debug panicked: {}>>", panic_msg(e))),
+    }
 }
 struct NameOf<T>(core::marker::PhantomData<T>);
 impl<T: AlgorithmName> core::fmt::Display for NameOf<T> {
@@ -742,7 +763,10 @@ impl<T: AlgorithmName> core::fmt::Display for NameOf<T> {
     }
 }
 fn t_alg_name<T: AlgorithmName>() -> String {
-    format!("{}", NameOf::<T>(core::marker::PhantomData))
+    match catch_unwind(|| format!("{}", NameOf::<T>(core::marker::PhantomData))) {
+        Ok(s) => s,
+        Err(e) => format!("<<write_alg_name panicked: {}>>", panic_msg(e)),
+    }
 }
 // halves: Enc-only / Dec-only types have no combined instance; checked constructors are
 // exercised through weak/new_checked returning an instance usable in one direction only.
@@ -936,6 +960,7 @@ pub fn types() -> Vec<TypeInfo> {
     ti_rc5!(v;
         (u8, U12, U4), (u16, U16, U8), (u32, U12, U16), (u32, U16, U16), (u64, U24, U24), (u128, U28, U32),
         (u32, U20, U5), (u64, U1, U11), (u16, U255, U3), (u8, U0, U4), (u128, U12, U255), (u32, U12, U0),
+        (u32, U200, U16), (u8, U128, U8), (u64, U127, U9), (u16, U254, U2), (u128, U100, U1),
     );
     v
 }
